@@ -232,29 +232,81 @@ theorem no_new_streams_after_done (st : St) (e : Event) (h : st.settles ≠ []) 
       split <;> rfl
     · rfl
 
+/-! ### a resolved list that repeats an address: every ENTRY is a separate attempt -/
+
+theorem length_filter_add (p : Addr → Bool) (l : List Addr) :
+    (l.filter p).length + (l.filter (fun x => !p x)).length = l.length := by
+  induction l with
+  | nil => rfl
+  | cons x xs ih =>
+    cases h : p x <;> simp [List.filter, h] <;> omega
+
+/-- **split_keeps_every_entry** — `split` distributes the entries over the two queues without dropping any
+(addresses are never compared, so a repeated address stays queued once per occurrence): the number of queued
+attempts equals `len(addrinfo)`, the value `remaining` starts from -/
+theorem split_keeps_every_entry (addrs : List Addr) :
+    (split addrs).1.length + (split addrs).2.length = addrs.length := by
+  cases addrs with
+  | nil => rfl
+  | cons a l =>
+    have h := length_filter_add (fun x => x.fam == a.fam) (a :: l)
+    simpa [split, bne] using h
+
+/-- non-vacuity / duplicates: the same address listed twice is attempted twice, one after the other; the error
+is delivered when the second attempt has failed too, not before -/
+example :
+    let addrs := mkNamed [(0, 7, false), (0, 7, false)]
+    let st1 := run (start addrs false) [.batch [.fail 0]]
+    let st2 := run (start addrs false) [.batch [.fail 0], .batch [.fail 1]]
+    st1.settles = [] ∧ st1.remaining = 1 ∧ st1.streams.map (·.fut) = [.err, .pending]
+      ∧ st2.settles = [.lastError 1] ∧ st2.remaining = 0
+      ∧ Spec.check addrs [.batch [.fail 0], .batch [.fail 1]]
+          ((start addrs false :: trace (start addrs false) [.batch [.fail 0], .batch [.fail 1]]).map Spec.snapOf) = 0 := by
+  decide
+
+/-- duplicates, non-adjacent and across families (`a c a` with `c` of the other family; and the same `name`
+in two families is two addresses): three attempts, error after the third failure -/
+example :
+    let addrs := mkNamed [(0, 7, false), (1, 7, false), (0, 7, false)]
+    let evs := [.batch [.fail 0], .batch [.fail 1], .batch [.fail 2]]
+    (run (start addrs false) evs).settles = [.lastError 2]
+      ∧ ((trace (start addrs false) evs).map (·.settles.length)) = [0, 0, 1]
+      ∧ Spec.check addrs evs ((start addrs false :: trace (start addrs false) evs).map Spec.snapOf) = 0 := by
+  decide
+
+/-- the oracle flags a run in which the only address (listed twice) has failed, nothing is in flight and the
+future is still pending — with the connect timer live (clause 8) and without (clause 6) -/
+example :
+    let addrs := mkNamed [(0, 7, false), (0, 7, false)]
+    let s0 : Spec.Snap := ⟨[], [⟨0, .pending, false⟩], true, true⟩
+    let s1 : Spec.Snap := ⟨[], [⟨0, .err, true⟩], false, true⟩
+    let s1' : Spec.Snap := ⟨[], [⟨0, .err, true⟩], false, false⟩
+    Spec.check addrs [.batch [.fail 0]] [s0, s1] = 8 ∧ Spec.check addrs [.batch [.fail 0]] [s0, s1'] = 6 := by
+  decide
+
 /-! ## goals not proved (the correspondence stream and the Spec oracle check them on every run) -/
 
 /-- at quiescence, once the future is done every stream other than the winner is closed -/
 def losers_closed_goal : Prop :=
-  ∀ (l : List (Nat × Bool)) (ct : Bool) (evs : List Event),
-    Spec.clause4 (Spec.snapOf (run (start (mkAddrs l) ct) evs)) = true
+  ∀ (l : List (Nat × Nat × Bool)) (ct : Bool) (evs : List Event),
+    Spec.clause4 (Spec.snapOf (run (start (mkNamed l) ct) evs)) = true
 
 /-- at most one attempt per family in flight (address lists over two families) -/
 def one_inflight_per_family_goal : Prop :=
-  ∀ (l : List (Nat × Bool)) (ct : Bool) (evs : List Event), (∀ p ∈ l, p.1 ≤ 1) →
-    Spec.clause5 (mkAddrs l) (Spec.snapOf (run (start (mkAddrs l) ct) evs)) = true
+  ∀ (l : List (Nat × Nat × Bool)) (ct : Bool) (evs : List Event), (∀ p ∈ l, p.1 ≤ 1) →
+    Spec.clause5 (mkNamed l) (Spec.snapOf (run (start (mkNamed l) ct) evs)) = true
 
-/-- an error outcome other than the timeout means every address was tried and failed -/
+/-- an error outcome other than the timeout means every entry (repeated addresses included) was tried and failed -/
 def error_iff_all_failed_goal : Prop :=
-  ∀ (l : List (Nat × Bool)) (ct : Bool) (evs : List Event) (o : Outcome),
-    (run (start (mkAddrs l) ct) evs).settles = [o] → kindOf o = .fail →
-      (run (start (mkAddrs l) ct) evs).streams.length = l.length
-        ∧ ∀ x ∈ (run (start (mkAddrs l) ct) evs).streams, x.fut = .err
+  ∀ (l : List (Nat × Nat × Bool)) (ct : Bool) (evs : List Event) (o : Outcome),
+    (run (start (mkNamed l) ct) evs).settles = [o] → kindOf o = .fail →
+      (run (start (mkNamed l) ct) evs).streams.length = l.length
+        ∧ ∀ x ∈ (run (start (mkNamed l) ct) evs).streams, x.fut = .err
 
-/-- the whole observed-run checker holds of the model's own runs -/
+/-- the whole observed-run checker (clauses 1–8) holds of the model's own runs, for lists that may repeat addresses -/
 def model_run_ok_goal : Prop :=
-  ∀ (l : List (Nat × Bool)) (ct : Bool) (evs : List Event), l ≠ [] → (∀ p ∈ l, p.1 ≤ 1) →
-    Spec.check (mkAddrs l) evs
-      ((start (mkAddrs l) ct :: trace (start (mkAddrs l) ct) evs).map Spec.snapOf) = 0
+  ∀ (l : List (Nat × Nat × Bool)) (ct : Bool) (evs : List Event), l ≠ [] → (∀ p ∈ l, p.1 ≤ 1) →
+    Spec.check (mkNamed l) evs
+      ((start (mkNamed l) ct :: trace (start (mkNamed l) ct) evs).map Spec.snapOf) = 0
 
 end TornadoModel.C10
